@@ -96,3 +96,16 @@ theorem rstrip_snoc (p : Byte → Bool) (a : Byte) (x : Bytes) (h : p a = false)
     rstrip p (x ++ [a]) = x ++ [a] := by simp [rstrip, h]
 
 end Httoop
+
+namespace Httoop
+
+theorem strip_noop (p : Byte → Bool) (x : Bytes) (h : ∀ b ∈ x, p b = false) : strip p x = x := by
+  have hd : ∀ l : Bytes, (∀ b ∈ l, p b = false) → l.dropWhile p = l := by
+    intro l hl
+    cases l with
+    | nil => rfl
+    | cons a l => simp [List.dropWhile, hl a (by simp)]
+  unfold strip rstrip lstrip
+  rw [hd x h, hd x.reverse (fun b hb => h b (List.mem_reverse.mp hb)), List.reverse_reverse]
+
+end Httoop
